@@ -142,6 +142,33 @@ func c15Direct(p protocol.Perspective, t, lim int) func(bool) *c15Cfg {
 	}
 }
 
+// zero: an incoming limit of 0 (Config.MaxIncomingStreams / MaxIncomingUniStreams < 0, i.e.
+// initial_max_streams_* = 0: the peer may open NO stream of that type) as start state. Every
+// frame kind is offered for the first stream numbers of the class with limit 0 - the very first
+// stream is already beyond the advertised MAX_STREAMS, and no credit may ever be issued for
+// it -; the other incoming class (limit 0 as well, or 2) only gets frames that open streams
+// and is completed through DeleteStream directly, so that the state set closes. 0-RTT
+// rejection re-creates the maps with the same limits.
+func c15Zero(p protocol.Perspective, lim [2]int) func(bool) *c15Cfg {
+	return func(th bool) *c15Cfg {
+		cfg := &c15Cfg{pers: p, lim: lim, direct: true, acceptNone: true, reset0rtt: true, closeErr: true}
+		for t := 0; t < 2; t++ {
+			cfg.accept[t] = true
+			if lim[t] == 0 {
+				cfg.frameMax[t] = c15Pick(th, 2, 3)
+				cfg.frameKinds[t] = []int{c15KStream, c15KFin, c15KReset, c15KStop, c15KMaxData, c15KBlocked}
+				continue
+			}
+			cfg.frameMax[t] = lim[t] + c15Pick(th, 2, 4)
+			cfg.frameKinds[t] = []int{c15KBlocked}
+			if t == 0 {
+				cfg.frameKinds[t] = []int{c15KBlocked, c15KMaxData}
+			}
+		}
+		return cfg
+	}
+}
+
 // mixed: everything together, including 0-RTT rejection and CloseWithError.
 func c15Mixed(p protocol.Perspective, kinds []int, dq, dt int) func(bool) *c15Cfg {
 	return func(th bool) *c15Cfg {
@@ -164,6 +191,14 @@ func TestVerifC15(t *testing.T) {
 		c15Part("direct-bidi-cli-l3", c15Direct(cli, 0, 3)),
 		c15Part("direct-uni-srv-l3", c15Direct(srv, 1, 3)),
 		c15Part("direct-uni-cli-l2", c15Direct(cli, 1, 2)),
+		c15Part("direct-bidi-srv-l1", c15Direct(srv, 0, 1)),
+		c15Part("direct-uni-cli-l1", c15Direct(cli, 1, 1)),
+		c15Part("zero-bidi-srv-l0", c15Zero(srv, [2]int{0, 2})),
+		c15Part("zero-bidi-cli-l0", c15Zero(cli, [2]int{0, 2})),
+		c15Part("zero-uni-srv-l0", c15Zero(srv, [2]int{2, 0})),
+		c15Part("zero-uni-cli-l0", c15Zero(cli, [2]int{2, 0})),
+		c15Part("zero-both-srv-l0", c15Zero(srv, [2]int{0, 0})),
+		c15Part("zero-both-cli-l0", c15Zero(cli, [2]int{0, 0})),
 		c15SyncPart("sync-bidi-cli", c15Sync(cli, 0), t),
 		c15SyncPart("sync-uni-srv", c15Sync(srv, 1), t),
 		c15Part("out-srv", c15Out(srv, [2]int{1, 2}, [2][]int{{1, 2}, {2, 3}}, 6, 7)),
